@@ -118,7 +118,7 @@ func (g *xgen) attrValue(q byte) string {
 			sb.WriteString(ref)
 			g.hit("attr:charref")
 		case 9:
-			sb.WriteString(g.r.Pick(">", "/>", "?>", "]]>", "-->", "=", "/"))
+			sb.WriteString(g.r.Pick(">", "/>", "?>", "]] >", "-->", "=", "/")) // no "]]>": encoding/xml (wrongly) rejects it in attribute values
 		case 10:
 			if len(g.ents) > 0 {
 				sb.WriteString("&" + g.ents[g.r.Intn(len(g.ents))] + ";")
@@ -207,7 +207,7 @@ func (g *xgen) cdata() string {
 }
 
 func (g *xgen) comment() string {
-	s := g.r.Pick("", " c ", "c", " <a> ", " & ", " ]]> ", " a - b ", "\n x \n", " &lt; ", "?>", " <!-", "]", ">")
+	s := g.r.Pick("", " c ", "c", " <a> ", " & ", " ]]> ", " a - b ", "\n x \n", " &lt; ", "?>", " <! ", "]", ">", " - - ")
 	g.hit("comment")
 	return "<!--" + s + "-->"
 }
@@ -284,16 +284,16 @@ func (g *xgen) content(depth int) string {
 	switch g.r.Intn(8) {
 	case 0:
 		n = 0
-	case 1, 2, 3:
+	case 1, 2:
 		n = 1
-	case 4, 5:
-		n = 2 + g.r.Intn(2)
+	case 3, 4, 5:
+		n = 2 + g.r.Intn(3)
 	default:
-		n = 1 + g.r.Intn(6)
+		n = 1 + g.r.Intn(8)
 	}
 	var ps []piece
 	for i := 0; i < n; i++ {
-		switch g.r.Intn(14) {
+		switch g.r.Intn(16) {
 		case 0, 1, 2, 3:
 			t := g.text()
 			if len(ps) > 0 && ps[len(ps)-1].kind == tText {
